@@ -205,6 +205,24 @@ def loop_body(body, ordinal, kind=r"(?:for|while)"):
     return body[m.start():q + 1], body[j:e + 1]
 
 
+def enclosing_block(body, at_regex):
+    """the innermost {...} block of `body` that contains the first match of at_regex"""
+    m = re.search(at_regex, body)
+    if not m:
+        raise ExtractionError(f"block anchor /{at_regex}/ not found")
+    depth = 0
+    i = m.start()
+    while i >= 0:
+        if body[i] == "}":
+            depth += 1
+        elif body[i] == "{":
+            if depth == 0:
+                return body[i:match_close(body, i) + 1]
+            depth -= 1
+        i -= 1
+    raise ExtractionError("no enclosing block")
+
+
 def slice_between(body, first_regex, last_regex):
     """Statement slice of a body: from the match of first_regex to the end of the match of last_regex."""
     m1 = re.search(first_regex, body)
@@ -585,18 +603,31 @@ def extract_fn(fn, mutate=False):
     if re.search(r"\)\s*:\s*\w+\s*\(", sig):
         raise ExtractionError(f"{fn.name}: constructor initialiser lists are not extractable")
     if fn.piece:
-        kind = fn.piece[0]
+        pc = fn.piece
+        if isinstance(pc, tuple):      # legacy tuple forms
+            if pc[0] == "loop":
+                pc = {"kind": "loop", "ordinal": pc[1], "sig": pc[2], "byref": pc[3] if len(pc) > 3 else ()}
+            else:
+                pc = {"kind": "slice", "first": pc[1], "last": pc[2], "sig": pc[3]}
+        kind = pc["kind"]
+        whole = body
         if kind == "loop":
-            _, body = loop_body(body, fn.piece[1])
-            sig = fn.piece[2]
-            # live-ins passed by pointer: every use becomes (*name)
-            for nm in (fn.piece[3] if len(fn.piece) > 3 else ()):
-                body = re.sub(r"(?<![\w.>])" + re.escape(nm) + r"\b(?!\s*\()", f"(*{nm})", body)
+            _, body = loop_body(whole, pc["ordinal"])
+        elif kind == "block":
+            body = enclosing_block(whole, pc["at"])
         elif kind == "slice":
-            body = "{\n" + slice_between(body, fn.piece[1], fn.piece[2]) + "\n}"
-            sig = fn.piece[3]
+            body = "{\n" + slice_between(whole, pc["first"], pc["last"]) + "\n}"
         else:
             raise ExtractionError("unknown piece kind")
+        # live-ins passed by pointer: every use becomes (*name)
+        for nm in pc.get("byref", ()):
+            body = re.sub(r"(?<![\w.>])" + re.escape(nm) + r"\b(?!\s*\()", f"(*{nm})", body)
+        if pc.get("prologue"):         # declarations / lambdas of the enclosing function the piece depends on
+            pro = slice_between(whole, pc["prologue"][0], pc["prologue"][1])
+            body = "{\n" + pro + "\n" + body + "\n" + pc.get("epilogue", "") + "\n}"
+        elif pc.get("epilogue"):
+            body = "{\n" + body + "\n" + pc["epilogue"] + "\n}"
+        sig = pc["sig"]
         log.note("piece:" + kind, 1)
     else:
         sig = apply_subs(sig, fn.sig_subs, log, "SS")
